@@ -43,16 +43,27 @@ fn frame_in_scope(src: &mut Src, scope: &[Qubit]) -> FrameIdentifier {
 fn param_expr(src: &mut Src, param_vars: &[String], growth: bool) -> Expression {
     let var = |src: &mut Src| -> Expression {
         if param_vars.is_empty() {
-            gx::num(0.5, 0.0)
+            // outside a definition: a constant, or (growth only) a memory reference, which no
+            // amount of folding turns into a constant when a calibration squares it
+            if growth && src.chance(1, 3) {
+                Expression::Address(quil_rs::instruction::MemoryReference::new("ro".into(), 0))
+            } else {
+                gx::num(0.5, 0.0)
+            }
         } else {
             Expression::Variable(src.pick(param_vars).clone())
         }
     };
-    match src.weighted(&[3, 2, 1, if growth { 2 } else { 0 }]) {
+    match src.weighted(&[3, 2, 1, if growth { 2 } else { 0 }, if growth { 1 } else { 0 }]) {
         0 => var(src),
         1 => gx::num(src.below(4) as f64 / 2.0, 0.0),
         2 => gx::infix(var(src), InfixOperator::Star, gx::num(2.0, 0.0)),
-        _ => gx::infix(var(src), InfixOperator::Plus, gx::num(1.0, 0.0)),
+        3 => gx::infix(var(src), InfixOperator::Plus, gx::num(1.0, 0.0)),
+        // doubles the size of the parameter at every level of re-expansion
+        _ => {
+            let v = var(src);
+            gx::infix(v.clone(), InfixOperator::Star, v)
+        }
     }
 }
 
